@@ -1,0 +1,43 @@
+//go:build verif
+
+package access
+
+// Contracts for govc (see /verif/DESIGN.md).  Comment-only file.
+
+//@ import netip net/netip
+//@ import geoip github.com/AdguardTeam/AdGuardDNS/internal/geoip
+//@ import dns github.com/miekg/dns
+
+// C10: within a profile an allowed subnet or ASN takes precedence over a
+// blocked one.
+
+//@ pred inNets(nets []netip.Prefix, ip netip.Addr) = exists i int :: 0 <= i && i < len(nets) && prefixContains(nets[i], ip)
+//@ pred inASNs(asns []geoip.ASN, l *geoip.Location) = l != nil && (exists i int :: 0 <= i && i < len(asns) && asns[i] == l.ASN)
+
+//@ func matchNets
+//@   property C10
+//@   ensures ok == inNets(nets, ip)
+//@   loop 1 invariant -1 <= #i && #i < len(nets)
+//@   loop 1 invariant forall k int :: 0 <= k && k <= #i ==> !prefixContains(nets[k], ip)
+
+//@ func matchASNs
+//@   property C10
+//@   ensures ok == inASNs(asns, l)
+
+//@ func (*DefaultProfile).isBlockedByNets
+//@   property C10
+//@   ensures allow-first: blocked == (!(inASNs(p.allowedASN, l) || inNets(p.allowedNets, ip)) &&
+//@             (inASNs(p.blockedASN, l) || inNets(p.blockedNets, ip)))
+
+// The blocked-name rules are matched by urlfilter (dependency).
+//@ fun hostRuleBlocked(eng *blockedHostEngine, req *dns.Msg) bool
+//@ func (*blockedHostEngine).isBlocked
+//@   modifies nothing
+//@   ensures blocked == hostRuleBlocked(e, req)
+
+//@ fun addrOf(ap netip.AddrPort) netip.Addr
+
+//@ func (*DefaultProfile).IsBlocked
+//@   property C10
+//@   ensures blocked == ((!(inASNs(p.allowedASN, l) || inNets(p.allowedNets, addrOf(rAddr))) &&
+//@             (inASNs(p.blockedASN, l) || inNets(p.blockedNets, addrOf(rAddr)))) || hostRuleBlocked(p.blockedHostsEng, req))
